@@ -35,6 +35,18 @@ if [ $? -ne 0 ]; then
   echo "INCONCLUSIVE property=$PROP reason=harness-build-failed-against-$REPO"
   exit 2
 fi
+# C10 and C19 also run programs that link only part of the library (cmd/minprog, one binary per build tag)
+case "$PROP" in C10|C19)
+  for m in auto csv html json markdown text; do
+    ( cd "$HERE/harness" && go build "${MODARGS[@]}" -tags "verif min_$m" -o "$BUILD/bin/min-$TAG-$m" ./cmd/minprog ) >> "$BUILD/build-$TAG$RACE.log" 2>&1
+    if [ $? -ne 0 ]; then
+      cat "$BUILD/build-$TAG$RACE.log"
+      echo "INCONCLUSIVE property=$PROP reason=minimal-program-build-failed-against-$REPO"
+      exit 2
+    fi
+  done
+  export VERIF_MINPROG="$BUILD/bin/min-$TAG-";;
+esac
 if [ "${1:-}" = "--replay" ]; then
   exec "$BIN" -prop "$PROP" -replay "${2:?replay file}"
 fi
